@@ -212,8 +212,9 @@ func init() {
 	})
 	ord("ord-named-args", func(r *vh.Rand, u string) string {
 		xs := scrambled(r, 3)
-		// evaluation follows the order written at the call, binding follows the names
-		return expectLine(S("<%s><%s><%s>", xs[2], xs[0], xs[1])) + tr(u) +
+		// binding follows the names; since /repo c880030 (resolveNamedArguments) the argument expressions
+		// of a call that uses names are evaluated in PARAMETER order, not in the order written at the call
+		return expectLine(S("<%s><%s><%s>", xs[0], xs[1], xs[2])) + tr(u) +
 			S("function na2_%s(%s) { return \"%s\"; }\necho na2_%s(%s: t_%s(%s), %s: t_%s(%s), %s: t_%s(%s)), \"\\n\";\n", u,
 				joinMap(xs, ", ", func(_ int, x string) string { return S("$%s = '-'", x) }),
 				joinMap(xs, " ", func(_ int, x string) string { return x + "=$" + x }),
